@@ -3,4 +3,6 @@ Require Extraction.
 Require Import ExtrOcamlBasic.
 From Verif.C17 Require Import Base17 Extracted Sorts Model Spec Exec.
 Extraction "model_ml.ml" index_of into_iter has get_id total_size listed listings total_spec
-  no_overflow all_homogeneous listed_by_blob_type mkid id_hi id_lo pack_type z_unused.
+  no_overflow all_homogeneous listed_by_blob_type mkid id_hi id_lo pack_type z_unused
+  index_of_release prune_index_of prune_index_of_release listed_anywhere all_packs listings_in total_in
+  no_overflow_in blob_read_request counts_fit total_release has_tree has_data get_tree get_data.
